@@ -69,7 +69,13 @@ def _cases(draw, tier):
     if draw(st.booleans()):
         cfg.setdefault('predefined', {})['constants'] = [{'name': n, 'value': 1} for n in
                                                          draw(st.lists(st.sampled_from(isagen.CONSTS), min_size=1, max_size=3, unique=True))]
-    return {'isa': cfg, 'salt': draw(st.integers(0, 1000)), 'regenerate': draw(st.integers(0, 2)) == 0}
+    if draw(st.integers(0, 4)) == 0:
+        # a register spelled exactly like a mnemonic: the word belongs to both classes
+        plain = [m for m in sorted(cfg['instructions']) if m.isidentifier()]
+        if plain:
+            cfg['general']['registers'] = list(cfg['general'].get('registers') or []) + [draw(st.sampled_from(plain))]
+    return {'isa': cfg, 'salt': draw(st.integers(0, 1000)), 'regenerate': draw(st.integers(0, 2)) == 0,
+            'verbose': draw(st.sampled_from([0, 0, 0, 1, 3]))}
 
 
 def _first_variant(cfg, mn):
@@ -186,11 +192,11 @@ def execute(case, ctx):
         old_cfg['general']['registers'] = ['oldreg']
         old_cfg.pop('macros', None)
         _, old_text = isagen.dump_isa(old_cfg, 'yaml')
-        r0 = runner.run_forked(['generate-extension', 'vscode', '-c', fname, '-d', 'vs'], {fname: old_text}, crosscheck=False)
+        r0 = runner.run_forked(['generate-extension', 'vscode'] + ['-v'] * case.get('verbose', 0) + ['-c', fname, '-d', 'vs'], {fname: old_text}, crosscheck=False)
         evals += 1
         if r0.klass == 'accepted':
             vs_files.update(r0.outputs)
-    r = runner.run_forked(['generate-extension', 'vscode', '-c', fname, '-d', 'vs'], vs_files, crosscheck=False)
+    r = runner.run_forked(['generate-extension', 'vscode'] + ['-v'] * case.get('verbose', 0) + ['-c', fname, '-d', 'vs'], vs_files, crosscheck=False)
     evals += 1
     if case.get('regenerate') and r.klass == 'accepted':
         # files that were not rewritten are still part of the generated package
@@ -244,11 +250,11 @@ def execute(case, ctx):
     sb_files = {fname: text}
     if case.get('regenerate'):
         # a package generated earlier from another vocabulary (same name and version) already sits in the directory
-        r0 = runner.run_forked(['generate-extension', 'sublime', '-c', fname, '-d', '.'], {fname: old_text}, crosscheck=False)
+        r0 = runner.run_forked(['generate-extension', 'sublime'] + ['-v'] * case.get('verbose', 0) + ['-c', fname, '-d', '.'], {fname: old_text}, crosscheck=False)
         evals += 1
         if r0.klass == 'accepted':
             sb_files.update({k: v for k, v in r0.outputs.items() if k.endswith('.sublime-package')})
-    r = runner.run_forked(['generate-extension', 'sublime', '-c', fname, '-d', '.'], sb_files, crosscheck=False)
+    r = runner.run_forked(['generate-extension', 'sublime'] + ['-v'] * case.get('verbose', 0) + ['-c', fname, '-d', '.'], sb_files, crosscheck=False)
     evals += 1
     pk = [k for k in r.outputs if k.endswith('.sublime-package')]
     if r.klass != 'accepted' or not pk:
